@@ -8,6 +8,7 @@ break point.  It is not used to test behaviour on sampled inputs.
 Anything it does not model raises Unsupported (callers turn that into
 "analysis broken", exit 2).
 """
+import os, sys
 from .core import strip, cval, show
 
 M64 = 2 ** 64 - 1
@@ -109,8 +110,21 @@ def _sat_u16(x):
     return max(0, min(65535, x))
 
 
+def _clmul(x, y):
+    r = 0
+    i = 0
+    while y >> i:
+        if (y >> i) & 1:
+            r ^= x << i
+        i += 1
+    return r & ((1 << 128) - 1)
+
+
 SSE = {
     '_mm_setzero_si128': lambda a: 0,
+    '__builtin_ia32_pclmulqdq128': lambda a: _clmul((a[0] >> (64 if a[2] & 1 else 0)) & ((1 << 64) - 1), (a[1] >> (64 if a[2] & 16 else 0)) & ((1 << 64) - 1)),
+    '_mm_set_epi64x': lambda a: ((a[0] & ((1 << 64) - 1)) << 64) | (a[1] & ((1 << 64) - 1)),
+    '_mm_clmulepi64_si128': lambda a: _clmul((a[0] >> (64 if a[2] & 1 else 0)) & ((1 << 64) - 1), (a[1] >> (64 if a[2] & 16 else 0)) & ((1 << 64) - 1)),
     '_mm_set1_epi8': lambda a: _pack([a[0] & 0xFF] * 16, 8),
     '_mm_set1_epi16': lambda a: _pack([a[0] & 0xFFFF] * 8, 16),
     '_mm_set1_epi32': lambda a: _pack([a[0] & 0xFFFFFFFF] * 4, 32),
@@ -172,6 +186,23 @@ def member_path(e):
     if e is None or e.get('k') != 'this' or not names:
         return None
     return '.'.join(reversed(names))
+
+
+class LocalCell:
+    """the address of a (pointer-typed) local variable: reads and writes go to the owning frame"""
+    def __init__(self, env, vid, t):
+        self.env, self.vid, self.t = env, vid, t
+
+    def deref(self):
+        if self.vid not in self.env:
+            raise UndefinedBehaviour('read of an uninitialised local through its address')
+        return self.env[self.vid]
+
+    def set(self, v):
+        self.env[self.vid] = v
+
+    def cast_to(self, t):
+        return self
 
 
 class Interp:
@@ -304,6 +335,9 @@ class Interp:
                         return pb + self.ev(inner0['idx'], env, members)      # &p[i] == p + i for a model pointer
             if op == '&' and self.memory is not None:
                 in0 = strip(e['e'])
+                if in0 is not None and in0.get('k') == 'ref' and in0.get('dk') in ('local', 'param') and (in0.get('t') or '').rstrip().rstrip('&').rstrip().endswith('*') \
+                        and (in0.get('id') not in env or isinstance(env.get(in0['id']), int)):
+                    return LocalCell(env, in0['id'], in0.get('t'))      # the address of a pointer local (handed to a helper that advances it)
                 if in0 is not None and in0.get('k') == 'ref' and in0.get('dk') == 'local' and '*' not in (in0.get('t') or '') and '[' not in (in0.get('t') or '') \
                         and not isinstance(env.get(in0.get('id')), (dict, tuple)) and (in0.get('id') not in env or isinstance(env.get(in0['id']), int)):
                     return ('addrof', in0['id'], in0.get('t'))       # the address of a scalar local: only mem* may use it
@@ -437,16 +471,19 @@ class Interp:
                 sub_.memory = self.memory
                 sub_.mem_stores = self.mem_stores
                 self._share(sub_)
-                return sub_.run({p['id']: a for p, a in zip(g.params, args)}, {})[0]
+                r_, env2_, _, _ = sub_.run({p['id']: a for p, a in zip(g.params, args)}, {})
+                self._write_back(g, e, env2_, env, members)
+                return r_
             if g is not None and len(g.params) == len(args) and e.get('obj') is not None and strip(e['obj']) is not None and strip(e['obj']).get('k') == 'this':
                 # a method of the same object: it shares the member state
                 sub = Interp(g, self.facts, self.call_hook, self.max_steps)
                 sub.mem_stores = self.mem_stores
                 sub.memory = self.memory
                 self._share(sub)
-                r, _, mem2, _ = sub.run({p['id']: a for p, a in zip(g.params, args)}, members)
+                r, env2_, mem2, _ = sub.run({p['id']: a for p, a in zip(g.params, args)}, members)
                 members.clear()
                 members.update(mem2)
+                self._write_back(g, e, env2_, env, members)
                 return r
             raise Unsupported('call of %s' % name)
         if k == 'sub':
@@ -470,6 +507,11 @@ class Interp:
                 bv0 = self.ev(e['base'], env, members)
             except Unsupported:
                 bv0 = None
+            if isinstance(bv0, (bytes, bytearray)):
+                ix_ = self.ev(e.get('idx'), env, members)
+                if not isinstance(ix_, int) or not 0 <= ix_ <= len(bv0):
+                    raise UndefinedBehaviour('index %s into a string literal of %d bytes' % (ix_, len(bv0)))
+                return bv0[ix_] if ix_ < len(bv0) else 0          # the terminating NUL
             if bv0 is not None and not isinstance(bv0, int) and hasattr(bv0, 'deref'):
                 return (bv0 + self.ev(e.get('idx'), env, members)).deref()
         if k == 'sub' and self.memory is not None:
@@ -482,6 +524,23 @@ class Interp:
         if k == 'un' and False:
             pass
         raise Unsupported('expression kind %s (%s)' % (k, show(e0)[:50]))
+
+    def _write_back(self, g, e, env2, env, members):
+        """non-const lvalue-reference parameters of scalar / pointer type: what the callee left in them is what the
+        caller's variable holds afterwards"""
+        for p_, a_ in zip(g.params, e.get('args') or []):
+            t_ = (p_.get('t') or '').strip()
+            if not t_.endswith('&') or t_.endswith('&&') or t_.startswith('const ') and '*' not in t_:
+                continue
+            if p_['id'] not in env2 or not isinstance(env2[p_['id']], int):
+                continue
+            a0 = strip(a_)
+            if a0 is None or a0.get('k') not in ('ref', 'member'):
+                continue
+            try:
+                self.store(a_, env2[p_['id']], env, members)
+            except Unsupported:
+                pass
 
     def _share(self, sub):
         """a callee works on the same byte memory: same regions, same tables"""
@@ -561,14 +620,18 @@ class Interp:
             return l | r
         if op == '^':
             return l ^ r
-        if op == '<<':
-            if not 0 <= r < 64:
-                _undef('shift by %d' % r)
-            return l << r
-        if op == '>>':
-            if not 0 <= r < 64:
-                _undef('shift by %d' % r)
-            return l >> r
+        if op in ('<<', '>>'):
+            # the shift count must be below the width of the (promoted) left operand
+            wl_ = 64
+            try:
+                w0_, _sg = width((e or {}).get('t'))
+                if w0_ in (8, 16, 32):
+                    wl_ = 32
+            except Exception:
+                wl_ = 64
+            if not isinstance(r, int) or not 0 <= r < wl_:
+                _undef('shift of a %d-bit value by %s' % (wl_, r))
+            return l << r if op == '<<' else l >> r
         raise Unsupported('operator ' + op)
 
     def store(self, lhs, v, env, members):
@@ -607,6 +670,9 @@ class Interp:
                 else:
                     addr = self.ev(l['e'], env, members)
                     ew, _ = width(l.get('t'))
+                    if isinstance(addr, LocalCell):
+                        addr.set(v)
+                        return
                 if isinstance(addr, int):
                     self.write(addr, max(1, ew // 8), v & ((1 << ew) - 1))
                     self.mem_stores.append((show(l), v))
@@ -643,13 +709,18 @@ class Interp:
                     for vd in s_['vars']:
                         import re as _re2
                         ma = _re2.match(r'^(?:unsigned |signed )?(char|uint8_t|int8_t)\[(\d+)\]$', (vd.get('t') or '').replace('const ', ''))
-                        if ma and self.memory is not None and vd.get('init') is None:
-                            # a local byte array: its own writable region (contents indeterminate)
+                        zero_init_ = False
+                        if ma and self.memory is not None and vd.get('init') is not None:
+                            in_ = strip(vd['init'])
+                            if in_ is not None and in_.get('k') == 'initlist' and all((strip(x_) or {}).get('cv') in (0, '0') for x_ in (in_.get('args') or in_.get('inits') or [])):
+                                zero_init_ = True          # T buf[N] = {0}: every element zero
+                        if ma and self.memory is not None and (vd.get('init') is None or zero_init_):
+                            # a local byte array: its own writable region (contents indeterminate unless = {0})
                             nloc = getattr(self, '_nlocals', 0)
                             self._nlocals = nloc + 1
                             a_ = 0x20000000 + 0x1000 * nloc
                             for j_ in range(int(ma.group(2))):
-                                self.memory[a_ + j_] = 0xCD
+                                self.memory[a_ + j_] = 0 if zero_init_ else 0xCD
                             if getattr(self, 'writable', None) is not None:
                                 self.writable.append((a_, a_ + int(ma.group(2))))
                             env[vd['id']] = a_
@@ -657,8 +728,10 @@ class Interp:
                         if vd.get('init') is not None:
                             try:
                                 env[vd['id']] = wrap(self.ev(vd['init'], env, members), vd.get('t'))
-                            except Unsupported:
+                            except Unsupported as ex_:
                                 # a local of a type this interpreter does not model: left unbound, any later use fails
+                                if os.environ.get('SV_DEBUG_DECL'):
+                                    sys.stderr.write('decl of %s left unbound: %s\n' % (vd.get('name'), ex_))
                                 env.pop(vd['id'], None)
                     continue
                 if k == 'new':
